@@ -125,11 +125,11 @@ def value_universe(ctx):
         + S.object_values()
         + S.type_values()
         + [d for d in S.func_values() if not d[1].startswith("CLOSURE")]
-        + S.array_values(dtypes=("int32", "float32", "int64"), nmax=ctx.pick(3, 4), layouts=("C",))
+        + S.array_values(dtypes=("int32", "float32", "int64"), nmax=4, layouts=("C", "F"))
     )
     dom = ctx.domain(
         "input-value-checksums",
-        bound=f"{len(universe)} input values (scalars, short str/bytes, depth-1 containers, objects, types, functions, numpy arrays of <= {ctx.pick(3, 4)} elements x 3 dtypes) given to one python task",
+        bound=f"{len(universe)} input values (scalars, short str/bytes, depth-1 containers, objects, types, functions, numpy arrays of <= 4 elements x 3 dtypes in C and Fortran memory layout) given to one python task",
         rule="one evaluation of Task._checksum per (value, insertion order); every unordered pair of values of different type/content/shape/dtype must get different checksums "
         "(decided by bucketing); up to 2 pairs of each collision class are additionally confirmed through the real submission path; non-trivial = a checksum was produced",
         exhaustive=True,
